@@ -32,10 +32,14 @@ func EncodeTypedPointer(buf *[]byte, vt *rt.GoType, vp *unsafe.Pointer, sb *vars
 		return prim.EncodeNil(buf)
 	} else if pp, err := vars.FindOrCompile(vt, (fv&(1<<alg.BitPointerValue)) != 0, compiler); err != nil {
 		return err
-	} else if vt.Indirect() {
-		return Execute(buf, *vp, sb, fv, pp.(*ir.Program))
 	} else {
-		return Execute(buf, unsafe.Pointer(vp), sb, fv, pp.(*ir.Program))
+		/* the bit told how to compile this type, it says nothing about the values below it */
+		fv &^= 1 << alg.BitPointerValue
+		if vt.Indirect() {
+			return Execute(buf, *vp, sb, fv, pp.(*ir.Program))
+		} else {
+			return Execute(buf, unsafe.Pointer(vp), sb, fv, pp.(*ir.Program))
+		}
 	}
 }
 
